@@ -66,7 +66,9 @@ CLAIMED.update({
              "The exact iteration counts of the schematic loop families are decided against the sequential while / do-while spec "
              "(SpecWhile.v) on the implementation for all m<=4, N<=12, both gate kinds, both exits, budgets need-1/need/need+1.",
         design_ref="DESIGN.md section 5 C04",
-        note="partial: the iteration-count theorems C04_L1/C04_L2 of the design are not proved in Coq in this revision (concrete instances "
+        note="partial: proved are the budget theorems and 'no repeated or extra iteration' in the form C04_fresh_decision_per_pass (a re-run of a "
+             "gated node needs a gate decision newer than the node's previous run, in every reachable state of every graph); "
+             "the exact iteration-count theorems C04_L1/C04_L2 of the design are not proved in Coq (concrete instances "
              "are, by vm_compute); the while-loop equivalence is established per generated loop by the spec oracle.",
         technique="Coq proof (induction on fuel) + spec oracle (sequential loop) + differential correspondence",
     ),
@@ -142,11 +144,14 @@ CLAIMED.update({
              "checker wf_b, whose acceptance is PROVED to imply: each span opened once and closed exactly once, never closed before it is "
              "opened, the parent of every open span still open at every point (children close before parents; nested runs inside the launching "
              "node's span), root RunStart first and root RunEnd last with the caller-observed status. The harness additionally checks one "
-             "shutdown per top-level call, silence of rejected calls, and that a nested run is parented to the node that launched it.",
+             "shutdown per top-level call, silence of rejected calls, and that a nested run is parented to the node that launched it. For "
+             "synchronous runs of flat graphs the emission itself is modelled (EventsModel.run_events, compared event by event with the real "
+             "stream) and proved well-formed for every sequence of node executions (C12_model).",
         design_ref="DESIGN.md section 5 C12",
         note="The for-all over programs is sampled (translation validation per trace); completeness of the checker (no false rejection) is "
-             "established empirically on the unchanged tree; an instrumented event-emitting model is not built. Known finding F-d (empty map).",
-        technique="proved trace checker (Coq invariant proof over the one-pass span automaton) applied to real event logs",
+             "established empirically on the unchanged tree beyond the modelled family (synchronous, flat); nested / mapped / asynchronous "
+             "emission is validated per trace, not modelled. Known finding F-d (empty map).",
+        technique="proved trace checker (Coq invariant proof over the one-pass span automaton) applied to real event logs + proved emission model for synchronous flat runs",
     ),
     "C13": dict(
         category="proof",
